@@ -19,6 +19,7 @@ import (
 	"fmt"
 	"net"
 	"net/http"
+	"strings"
 
 	"github.com/tmpim/casket"
 	"github.com/tmpim/casket/caskethttp/httpserver"
@@ -93,13 +94,21 @@ func (l Logger) ServeHTTP(w http.ResponseWriter, r *http.Request) (int, error) {
 					rep.Set("remote", maskedIP)
 				}
 			}
-			e.Log.Println(rep.Replace(e.Format))
+			// An entry is one line. Text taken from the request (a decoded
+			// path or query, the user name of a failed login, a cookie)
+			// may contain line breaks; written as they are they would end
+			// the entry and begin another one of the client's making.
+			e.Log.Println(entryLineBreaks.Replace(rep.Replace(e.Format)))
 
 		}
 	}
 
 	return status, err
 }
+
+// entryLineBreaks writes line breaks the way the replacer does for
+// {request} and {request_body}.
+var entryLineBreaks = strings.NewReplacer("\r", "\\r", "\n", "\\n")
 
 // Entry represents a log entry under a path scope
 type Entry struct {
